@@ -113,14 +113,18 @@ def run_case(job, ret_files=False):
 GROW = {"empty": "one", "txt": "one", "one": "two", "upperonly": "mixedcase"}      # additive changes of a directory's content
 
 
+SHRINK = {"two": "one", "mixedcase": "one", "stemorder": "one", "casepair": "one"}     # a directory loses CMake files
+
+
 def run_history(job):
     """two runs into ONE output directory; between them a directory of the input gains a CMake file (so that, e.g., a
     sub-directory that was auto-excluded now is processed).  The second run's output must be closed and equal to what a
     fresh run on the grown tree writes"""
-    parents, contents, node, recursive, auto = job
+    parents, contents, node, recursive, auto = job[:5]
+    shrink = len(job) > 5 and job[5] == "shrink"
     t1 = Tree(parents, contents)
     c2 = list(contents)
-    c2[node] = GROW[contents[node]]
+    c2[node] = (SHRINK if shrink else GROW)[contents[node]]
     t2 = Tree(parents, c2)
     box = fsbox.Box("c14h")
     msgs = []
@@ -137,6 +141,9 @@ def run_history(job):
         argv = ["-s", "s.yaml"] + (["-r"] if recursive else [])
         r1 = box.run(argv + ["-o", "out", "in"])
         box.build({k: v for k, v in t2.spec("in").items() if k not in t1.spec("in")})
+        for k in t1.spec("in"):
+            if k not in t2.spec("in"):
+                os.remove(box.path("work", k))
         r2 = box.run(argv + ["-o", "out", "in"])
         r3 = box.run(argv + ["-o", "fresh", "in"])
         if r1["status"] or r2["status"] or r3["status"]:
@@ -144,6 +151,10 @@ def run_history(job):
         else:
             files = box.files("work/out")
             fresh = box.files("work/fresh")
+            if shrink:
+                # pages of the files that are gone stay behind (nobody asked to delete them); every index must be the fresh one
+                stale = sorted(set(files) - set(fresh))
+                files = {k: v for k, v in files.items() if k in fresh}
             msgs += dirmodel.closure_messages(files, recursive, "in")
             if files != fresh:
                 diffk = sorted(k for k in set(files) | set(fresh) if files.get(k) != fresh.get(k))
@@ -207,7 +218,16 @@ def run(ctx):
                 a[node] = c
                 for recursive, auto in ((True, True), (True, False), (False, True)):
                     hjobs.append((parents, a, node, recursive, auto))
-    ctx.sweep(run_history, hjobs, space="two runs into one output directory, the input grows in between", selftest=2)
+    for parents in shapes:
+        n = len(parents)
+        for node in range(0, n):
+            for c in SHRINK:
+                a = ["one"] * n
+                a[node] = c
+                for recursive in (True, False):
+                    if node == 0 or recursive:
+                        hjobs.append((parents, a, node, recursive, True, "shrink"))
+    ctx.sweep(run_history, hjobs, space="two runs into one output directory, the input grows / shrinks in between", selftest=2)
     ctx.assumptions += ["with auto-exclusion on the input directory keeps a non-excluded .cmake file (domain of C13/C14)",
                         "a run that produces no output at all (excluded input) is C15's business"]
     return RULE
